@@ -6,6 +6,8 @@
 (*   TRead   Archive::read_file on the target for EVERY listed source name                         *)
 (*   TList   list() of the target                                                                  *)
 (*   Compare compare_archives(source, target, content check)                                      *)
+(* Reset.listed are the names of the source's (listfile) that exist, Reset.unlisted the names that  *)
+(* are in the archive without being named there ((listfile) itself, (attributes), ordinary files). *)
 (* P-conjuncts = the invariants of Rebuild.tla evaluated on the observed run with ExpectedOf /     *)
 (* ExcludedOf as the oracle: the call succeeds; counts are truthful; target version as requested;  *)
 (* list_only writes nothing; every listed, not excluded name reads back with its token, excluded   *)
@@ -21,6 +23,7 @@ SetOf(sq) == {sq[j] : j \in 1..Len(sq)}
 Listed == SetOf(Src.listed)
 Enc    == SetOf(Src.enc)
 Sig    == SetOf(Src.sig)
+Unl    == SetOf(Src.unlisted)     \* names in the source archive that its (listfile) does not name (round 4)
 O(e)   == [skipEnc |-> e.opts.skipEnc, skipSig |-> e.opts.skipSig, verify |-> e.opts.verify, listOnly |-> e.opts.listOnly]
 Opts   == O(Rec[vr + 1])          \* the Rebuild event follows its Reset
 Excl   == ExcludedOf(Listed, Opts, Enc, Sig)
@@ -30,7 +33,9 @@ WantVer == IF Rec[vr + 1].opts.target = 0 THEN Src.ver ELSE Rec[vr + 1].opts.tar
 Bad(why) == PrintT(<<"BAD", tl, why>>)
 RebuildWhy(e) ==
     IF e.res # "ok" THEN "result"
-    ELSE IF e.source # Cardinality(Listed) THEN "source_count"
+    \* (the physical count of a source with unlisted names is a class of its own: C07-HETBET-COUNTS-UNLISTED)
+    ELSE IF e.source # Cardinality(Listed) THEN (IF Unl # {} /\ e.source = Cardinality(Listed \cup Unl) /\ e.extracted = Cardinality(Listed \ Excl)
+                                                    /\ e.extracted + e.skipped = e.source THEN "source_count_physical" ELSE "source_count")
     ELSE IF e.extracted # Cardinality(Listed \ Excl) THEN "extracted_count"
     ELSE IF e.skipped # Cardinality(Excl) \/ e.extracted + e.skipped # e.source THEN "skipped_count"
     ELSE IF e.tformat # WantVer THEN "target_version"
@@ -46,23 +51,26 @@ ReadWhy(e) ==
     ELSE IF e.tok # Exp[e.n] THEN "content" ELSE ""
 ListWhy(e) == IF Opts.listOnly THEN ""
               ELSE IF e.res # "ok" THEN "list_failed"
-              ELSE IF {x \in SetOf(e.names) : x \in Listed} # {f \in Listed : Exp[f] # RNone} THEN "list_differs" ELSE ""
+              ELSE IF {x \in SetOf(e.names) : x \in Listed} # {f \in Listed : Exp[f] # RNone} THEN "list_differs"
+              \* TargetEnumerable, second conjunct: beyond the listed files the target enumerates its own internal files only
+              ELSE IF ~((SetOf(e.names) \ Listed) \subseteq RInternal) THEN "list_extra" ELSE ""
 CompareWhy(e) == IF Opts.listOnly THEN ""
                  ELSE IF e.res # "ok" THEN "compare_failed"
                  ELSE IF e.content_diffs # <<>> THEN "content_differences"
                  ELSE IF ~(SetOf(e.only_src) \subseteq Excl) THEN "missing_in_target"
-                 ELSE IF SetOf(e.only_tgt) # {} THEN "extra_in_target" ELSE ""
+                 \* a (listfile) the target generated for a source whose list does not name itself is not an extra file
+                 ELSE IF ~(SetOf(e.only_tgt) \subseteq (RInternal \ Listed)) THEN "extra_in_target" ELSE ""
 Why(e) == CASE e.ev = "Rebuild" -> RebuildWhy(e) [] e.ev = "TRead" -> ReadWhy(e)
             [] e.ev = "TList" -> ListWhy(e) [] e.ev = "Compare" -> CompareWhy(e) [] OTHER -> "unknown_event"
 
 \* the machine variables of Rebuild are not used in trace mode (the oracle operators are)
-Idle == /\ rpc = "trace" /\ ropts = 0 /\ rtodo = {} /\ rextr = {} /\ rskip = {} /\ rlost = {} /\ rtarget = 0 /\ rsum = 0 /\ rres = ""
+Idle == /\ rpc = "trace" /\ ropts = 0 /\ rtodo = {} /\ rextr = {} /\ rskip = {} /\ rlost = {} /\ rtarget = 0 /\ rsum = 0 /\ rres = "" /\ rtlist = {}
 TInit == tl = 1 /\ vr = 0 /\ vskip = FALSE /\ Idle
 TNext == /\ tl <= Len(Rec) /\ tl' = tl + 1 /\ UNCHANGED rvars
          /\ IF Ev.ev = "Reset"
             THEN /\ vr' = tl
                  \* the source archive must hold what the driver gave to the builder
-                 /\ IF Ev.srcbad = <<>> THEN vskip' = FALSE ELSE Bad("source-not-as-built") /\ vskip' = TRUE
+                 /\ IF Ev.srcbad = <<>> /\ SetOf(Ev.unlisted) \cap SetOf(Ev.listed) = {} THEN vskip' = FALSE ELSE Bad("source-not-as-built") /\ vskip' = TRUE
             ELSE IF vskip THEN UNCHANGED <<vr, vskip>>
             ELSE /\ UNCHANGED vr
                  /\ IF Why(Ev) = "" THEN UNCHANGED vskip
